@@ -252,14 +252,14 @@ func ruleModQueue(w *World, r *RuleResult) {
 		}
 	}
 	// capacity >= 1: every constructor call passes a validated field
-	for _, call := range w.Callers(q.ctor) {
-		paths, _ := w.Paths(call.Parent())
+	for _, callRoot := range w.CallerRoots(q.ctor) {
+		paths, _ := w.Paths(callRoot)
 		for _, p := range paths {
 			for i := range p.Events {
 				e := &p.Events[i]
 				if e.Kind == "call" && e.Callee == q.ctor {
 					good := c.isRecvField(e.Args[0], c.a.MaxProcs)
-					d.add(good, call.Parent().Name()+"/capacity", c.posOf(e), "capacity is the validated process limit (>= 1)", "queue created with capacity "+e.Args[0].Show()+", not the validated process limit")
+					d.add(good, callRoot.Name()+"/capacity", c.posOf(e), "capacity is the validated process limit (>= 1)", "queue created with capacity "+e.Args[0].Show()+", not the validated process limit")
 				}
 			}
 		}
@@ -1128,8 +1128,8 @@ func ruleAPINil(w *World, r *RuleResult) {
 		}
 	}
 	// call sites of the executor: warrior tested alive
-	for _, call := range w.Callers(c.a.Exec) {
-		paths, _ := w.Paths(call.Parent())
+	for _, callRoot := range w.CallerRoots(c.a.Exec) {
+		paths, _ := w.Paths(callRoot)
 		for _, p := range paths {
 			for i := range p.Events {
 				e := &p.Events[i]
@@ -1142,7 +1142,7 @@ func ruleAPINil(w *World, r *RuleResult) {
 						}
 						return false
 					})
-					d.add(alive, call.Parent().Name()+"/exec-alive", c.posOf(e), "executor invoked only for a warrior tested alive", "executor invoked for a warrior not tested alive on this path")
+					d.add(alive, callRoot.Name()+"/exec-alive", c.posOf(e), "executor invoked only for a warrior tested alive", "executor invoked for a warrior not tested alive on this path")
 				}
 			}
 		}
